@@ -233,7 +233,7 @@ func c08Run(c c08Case) *eng.Fail {
 
 func init() {
 	checks["C08"] = eng.Check{
-		Rule:        "deps.NewCode on synthetic instruction sequences: <=3 (thorough 4) instructions of length 2 or 4 in 3 length patterns x every gap pattern, each instruction of one of 11 kinds (plain; a conditional whose branch is a wider conditional with constants reaching above the instruction-pointer width; IP:=Less(r1,r2,register+4,const T) and the mirrored form, i.e. a symbolic and a constant target in one instruction; IP:=addr+Less(r1,r2,T-addr,len) i.e. a conditional below an addition; IP:=const T; IP:=Less(r1,r2,T,next); IP:=next; IP:=register+4; IP:=Less(..,T1,T2); two effects with a foldable target) with T over {every instruction start, a mid-instruction address, a gap/end address, far outside}, entry over the same address alphabet, sorted and reversed input order, with 8-byte and (quick: for <=2 instructions and a third of the longer sequences) 4-byte instruction-pointer values, plus the empty sequence; and on real RISC-V sequences of <=4 words over {addi, beq +8/-4/+4, jal x0 +8/+4/-8, jalr, bne +12} (targets from the reference decoder), lifted by the rv64 and by the rv32 front end. Oracle: failure iff entry or a constant real target is not an instruction start; otherwise blocks = maximal runs between leaders (first, after gap, after an instruction with a real target, each constant target, entry). Non-trivial = code that builds.",
+		Rule:        "deps.NewCode on synthetic instruction sequences: <=3 (thorough 4) instructions of length 2 or 4 in 3 length patterns x every gap pattern, each instruction of one of 11 kinds (plain; a conditional whose branch is a wider conditional with constants reaching above the instruction-pointer width; IP:=Less(r1,r2,register+4,const T) and the mirrored form, i.e. a symbolic and a constant target in one instruction; IP:=addr+Less(r1,r2,T-addr,len) i.e. a conditional below an addition; IP:=const T; IP:=Less(r1,r2,T,next); IP:=next; IP:=register+4; IP:=Less(..,T1,T2); two effects with a foldable target) with T over {every instruction start, a mid-instruction address, a gap/end address, far outside}, entry over the same address alphabet, sorted, reversed and (from 3 instructions on) rotated input order, two long codes of 16 and 40 instructions in sorted / reversed / every rotated / interleaved order, codes of <=2 instructions also beginning at address 0, with 8-byte and (quick: for <=2 instructions and a third of the longer sequences) 4-byte instruction-pointer values, plus the empty sequence; and on real RISC-V sequences of <=4 words over {addi, beq +8/-4/+4, jal x0 +8/+4/-8, jalr, bne +12} (targets from the reference decoder), lifted by the rv64 and by the rv32 front end. Oracle: failure iff entry or a constant real target is not an instruction start; otherwise blocks = maximal runs between leaders (first, after gap, after an instruction with a real target, each constant target, entry). Non-trivial = code that builds.",
 		Assumptions: []string{"a constant target equal to the instruction's own end is not a jump (as the property's 'real jump target' says)"},
 		Run: func(r *eng.Run) {
 			do := func(c c08Case) {
@@ -255,19 +255,24 @@ func init() {
 				n    int
 				lens []int
 				gaps int
+				base uint64
 			}
 			var jobs []job
 			for n := 1; n <= maxN; n++ {
 				for _, lp := range lenPats {
 					for g := 0; g < 1<<(n-1); g++ {
-						jobs = append(jobs, job{n, lp[:n], g})
+						jobs = append(jobs, job{n, lp[:n], g, 0x100})
+						if n <= 2 {
+							// the same code beginning at address 0 (a legal address, not "unset")
+							jobs = append(jobs, job{n, lp[:n], g, 0})
+						}
 					}
 				}
 			}
 			r.Par(len(jobs), func(ji int) {
 				j := jobs[ji]
 				addrs := make([]uint64, j.n)
-				a := uint64(0x100)
+				a := j.base
 				gapAddr := uint64(0)
 				for k := 0; k < j.n; k++ {
 					if k > 0 && j.gaps>>(k-1)&1 == 1 {
@@ -338,6 +343,11 @@ func init() {
 								rev[j.n-1-k] = ins[k]
 							}
 							do(c08Case{Ins: rev, Entry: e})
+							if j.n >= 3 && (!r.Quick() || narrowN%2 == 0) {
+								// neither sorted nor reversed: the last instruction handed in first
+								rot := append([]c08Ins{ins[j.n-1]}, ins[:j.n-1]...)
+								do(c08Case{Ins: rot, Entry: e})
+							}
 							// the same code with 4-byte instruction-pointer values (what a 32-bit front end
 							// produces); quick: sequences of <=2 instructions and every 3rd longer one
 							if narrowN++; j.n <= 2 || !r.Quick() || narrowN%3 == 0 {
@@ -362,6 +372,61 @@ func init() {
 					}
 				}
 			})
+			// long codes (16 and 40 instructions: beyond the size up to which library sorts use
+			// insertion sort) handed in in many orders: sorted, reversed, every rotation, even
+			// positions before odd ones, the second half first with each half reversed
+			for _, n := range []int{16, 40} {
+				var long []c08Ins
+				a := uint64(0x100)
+				for k := 0; k < n; k++ {
+					if k == 6 || k == n-3 {
+						a += 2 // a gap
+					}
+					in := c08Ins{Addr: a, Len: 4 - 2*(k%2), Kind: "plain"}
+					a += uint64(in.Len)
+					long = append(long, in)
+				}
+				long[2].Kind, long[2].T1 = "cond", long[9].Addr
+				long[4].Kind, long[4].T1 = "jmp", long[1].Addr
+				long[11].Kind, long[11].T1, long[11].T2 = "cond2", long[n-1].Addr, long[3].Addr
+				long[n-2].Kind = "ind"
+				perm := func(f func(i int) int) []c08Ins {
+					out := make([]c08Ins, n)
+					for i := range out {
+						out[i] = long[f(i)]
+					}
+					return out
+				}
+				orders := [][]c08Ins{long, perm(func(i int) int { return n - 1 - i }),
+					perm(func(i int) int {
+						if i < (n+1)/2 {
+							return 2 * i
+						}
+						return 2*(i-(n+1)/2) + 1
+					}),
+					perm(func(i int) int {
+						if i < n/2 {
+							return n - 1 - i
+						}
+						return n - 1 - i
+					}),
+					perm(func(i int) int {
+						if i < n/2 {
+							return n/2 + (n/2 - 1 - i)
+						}
+						return n - 1 - i
+					})}
+				for k := 1; k < n; k++ {
+					k := k
+					orders = append(orders, perm(func(i int) int { return (i + k) % n }))
+				}
+				for _, o := range orders {
+					for _, e := range []uint64{long[0].Addr, long[9].Addr, long[n-1].Addr, long[5].Addr + 1} {
+						do(c08Case{Ins: o, Entry: e})
+						do(c08Case{Ins: o, Entry: e, IPW: 4})
+					}
+				}
+			}
 			// real RISC-V words
 			alpha := []uint32{prog.Addi(1, 1, 1), prog.Beq(1, 2, 8), prog.Beq(1, 2, -4), prog.Beq(0, 0, 4), prog.Jal(0, 8), prog.Jal(1, 4), prog.Jal(0, -8), prog.Jalr(0, 1, 0), prog.Bne(1, 2, 12)}
 			var seqs [][]uint32
